@@ -186,6 +186,37 @@ rgb_matrix_for!(mx_srgb_f32, f32, encoding::Srgb, wp::D65, "Srgb", 2e-5);
 rgb_matrix_for!(mx_2020_f32, f32, encoding::Rec2020, wp::D65, "Rec2020", 2e-5);
 rgb_matrix_for!(mx_pro_f32, f32, encoding::ProPhotoRgb, wp::D50, "ProPhotoRgb", 2e-5);
 
+/// `a.then(b)` applies a first, then b — checked with two NON-commuting matrices (RGB of one space -> XYZ -> RGB of
+/// another space): the combined matrix against the two applied in sequence and against the trait conversion.
+macro_rules! then_order {
+    ($fname:ident, $T:ty, $S1:ty, $S2:ty, $W:ty, $name:literal, $tol:expr) => {
+        fn $fname(c: &mut Collector, n: &mut u64) {
+            type T = $T;
+            let tn = stringify!($T);
+            let m1: Matrix3<Rgb<Linear<$S1>, T>, Xyz<$W, T>> = Xyz::matrix_from_rgb();
+            let m2: Matrix3<Xyz<$W, T>, Rgb<Linear<$S2>, T>> = Rgb::matrix_from_xyz();
+            let both = m1.then(m2);
+            for p in [[1.0, 0.0, 0.0], [0.0, 1.0, 0.0], [0.0, 0.0, 1.0], [0.2, 0.5, 0.7], [1.0, 1.0, 1.0], [0.9, 0.1, 0.3]] {
+                *n += 1;
+                let rgb: Rgb<Linear<$S1>, T> = Rgb::new(p[0] as T, p[1] as T, p[2] as T);
+                let direct: Rgb<Linear<$S2>, T> = both.convert(rgb);
+                let step: Rgb<Linear<$S2>, T> = m2.convert(m1.convert(rgb));
+                let viatrait: Rgb<Linear<$S2>, T> = Rgb::from_color_unclamped(Xyz::<$W, T>::from_color_unclamped(rgb));
+                for (what, q) in [("then vs sequential", step), ("then vs trait conversion", viatrait)] {
+                    let d = ((direct.red - q.red).abs() as f64).max((direct.green - q.green).abs() as f64).max((direct.blue - q.blue).abs() as f64);
+                    let tol: f64 = $tol;
+                    if !(d <= tol) {
+                        c.violation(&format!("C14/matrix3/then-order/{}/{}/{}", $name, tn, what), d, || json!({"sub": "matrix3", "what": what, "float": tn, "space": $name, "input": p, "observed": [direct.red as f64, direct.green as f64, direct.blue as f64], "expected": [q.red as f64, q.green as f64, q.blue as f64]}));
+                    }
+                }
+            }
+        }
+    };
+}
+then_order!(then_srgb_adobe_f64, f64, encoding::Srgb, encoding::AdobeRgb, wp::D65, "Srgb->AdobeRgb", 4e-6);
+then_order!(then_2020_srgb_f64, f64, encoding::Rec2020, encoding::Srgb, wp::D65, "Rec2020->Srgb", 4e-6);
+then_order!(then_p3_2020_f32, f32, encoding::DisplayP3, encoding::Rec2020, wp::D65, "DisplayP3->Rec2020", 4e-5);
+
 pub fn run(ctx: &Ctx, total: &mut Collector) {
     let sub = "adaptation-dynamic+matrix3";
     if !ctx.wants(sub) {
@@ -193,10 +224,10 @@ pub fn run(ctx: &Ctx, total: &mut Collector) {
     }
     let mut c = Collector::new();
     let mut n = 0u64;
-    for f in [dyn_bradford_f64, dyn_vonkries_f64, dyn_unit_f64, dyn_bradford_f32, dyn_vonkries_f32, dyn_unit_f32, mx_srgb_f64, mx_adobe_f64, mx_2020_f64, mx_p3_f64, mx_dci_f64, mx_pro_f64, mx_srgb_f32, mx_2020_f32, mx_pro_f32, mx_t1_f64, mx_t2_f64, mx_t3_f64, mx_t4_f64, mx_t1_f32, mx_t3_f32] {
+    for f in [dyn_bradford_f64, dyn_vonkries_f64, dyn_unit_f64, dyn_bradford_f32, dyn_vonkries_f32, dyn_unit_f32, mx_srgb_f64, mx_adobe_f64, mx_2020_f64, mx_p3_f64, mx_dci_f64, mx_pro_f64, mx_srgb_f32, mx_2020_f32, mx_pro_f32, mx_t1_f64, mx_t2_f64, mx_t3_f64, mx_t4_f64, mx_t1_f32, mx_t3_f32, then_srgb_adobe_f64, then_2020_srgb_f64, then_p3_2020_f32] {
         f(&mut c, &mut n);
     }
     c.add(sub, n, 6 * n, 6 * n, n);
-    c.exhaustive(sub, true, "all 18 x 18 ordered pairs of run-time white points (6 chromaticities x luminance 1, 0.8, 2.5) x {Bradford, VonKries, XYZ scaling} x 6 XYZ points, f32/f64: white -> white, a white point left out (None) on either or both sides == the static one passed explicitly (I == O and I != O), identity for equal chromaticity, reverse matrix / invert() / then(); Matrix3 from RGB spaces (6 named spaces and 4 tuple spaces (primaries, white point) whose matrices are derived at run time): white -> white point, matrix_from_rgb vs conversion, matrix_from_xyz, invert, then, identity");
+    c.exhaustive(sub, true, "all 18 x 18 ordered pairs of run-time white points (6 chromaticities x luminance 1, 0.8, 2.5) x {Bradford, VonKries, XYZ scaling} x 6 XYZ points, f32/f64: white -> white, a white point left out (None) on either or both sides == the static one passed explicitly (I == O and I != O), identity for equal chromaticity, reverse matrix / invert() / then(); Matrix3 from RGB spaces (6 named spaces and 4 tuple spaces (primaries, white point) whose matrices are derived at run time): white -> white point, matrix_from_rgb vs conversion, matrix_from_xyz, invert, then (incl. the order of two non-commuting matrices, RGB -> XYZ -> other RGB, against sequential application and the trait conversion), identity");
     total.merge(c);
 }
